@@ -45,6 +45,8 @@ package htlc
 //@   invariant #2 done:  forall j:Int :: 0 <= j && j <= rangeindex ==> has(htlcs, unhex(data.Htlcs[j].Id)) && get(htlcs, unhex(data.Htlcs[j].Id)) == data.Htlcs[j]
 //@                          && has(queue, data.Htlcs[j].ExpirationHeight, unhex(data.Htlcs[j].Id)) && hex(unhex(data.Htlcs[j].Id)) == data.Htlcs[j].Id
 //@   invariant #2 sums:  forall d:Str :: amt(incomingSupplies, d) == INSUM(data.Htlcs, rangeindex + 1, d) && amt(outgoingSupplies, d) == OUTSUM(data.Htlcs, rangeindex + 1, d)
+//@   invariant @IterateAssetSupplies #1 frame: forall j:Int :: 0 <= j && j < len(data.Htlcs) ==> has(htlcs, unhex(data.Htlcs[j].Id)) && get(htlcs, unhex(data.Htlcs[j].Id)) == data.Htlcs[j]
+//@                          && has(queue, data.Htlcs[j].ExpirationHeight, unhex(data.Htlcs[j].Id))
 //@   invariant #3 idx:   rangeindex >= 0 - 1 && rangeindex < len(l_supplies)
 //@   invariant #3 recon: forall j:Int :: 0 <= j && j <= rangeindex ==> l_supplies[j].IncomingSupply.Amount == INSUM(data.Htlcs, len(data.Htlcs), l_supplies[j].CurrentSupply.Denom)
 //@                          && l_supplies[j].OutgoingSupply.Amount == OUTSUM(data.Htlcs, len(data.Htlcs), l_supplies[j].CurrentSupply.Denom)
@@ -56,4 +58,18 @@ package htlc
 // of the listed open transfers of its denomination (an import that does not reconcile aborts)
 //@   ensures @C04 reconciled: forall d:Str :: has(supplies, d) ==> get(supplies, d).IncomingSupply.Amount == INSUM(data.Htlcs, len(data.Htlcs), get(supplies, d).CurrentSupply.Denom)
 //@                          && get(supplies, d).OutgoingSupply.Amount == OUTSUM(data.Htlcs, len(data.Htlcs), get(supplies, d).CurrentSupply.Denom)
+//@ end
+
+// Genesis export (C04, C12): every open contract and EVERY stored asset supply is listed - a supply whose totals are
+// all zero still carries the time window (elapsed time, amount completed in the current limit period) that the
+// time-based limit is enforced with, so leaving it out would hand the asset a fresh window on the restarted chain.
+//@ func ExportGenesis(ctx, k)
+//@   property C04, C12
+//@   returns gs
+//@   invariant @IterateHTLCs #1 pos:    0 <= it_idx && it_idx <= it_n
+//@   invariant @IterateHTLCs #1 listed: forall j:Int :: 0 <= j && j < it_idx && get(htlcs, it_seq[j]).State == keeper.OPEN
+//@                                         ==> (exists m:Int :: 0 <= m && m < len(l_htlcs) && l_htlcs[m] == get(htlcs, it_seq[j]))
+//@   ensures open_listed: forall i:Bytes :: has(htlcs, i) && get(htlcs, i).State == keeper.OPEN
+//@                           ==> (exists m:Int :: 0 <= m && m < len(gs.Htlcs) && gs.Htlcs[m] == get(htlcs, i))
+//@   ensures supplies_listed: len(gs.Supplies) == it_n && (forall d:Str :: has(supplies, d) ==> 0 <= itpos(d) && itpos(d) < len(gs.Supplies) && gs.Supplies[itpos(d)] == get(supplies, d))
 //@ end
